@@ -121,6 +121,13 @@ def run(ctx):
         c.coq_build(ctx, ["Contract/Text.vo", "Contract/Names.vo", "Contract/CheckedArith.vo", "Contract/CcTypes.vo"])
 
     ok, binp = c.cargo_build(ctx, "c16")
+    for _ in range(4):
+        # another property's crate being created in the shared workspace is not our failure: retry
+        if ok or "failed to load manifest for workspace member" not in binp or "/c16" in binp.split("referenced via")[0]:
+            break
+        import time
+        time.sleep(20)
+        ok, binp = c.cargo_build(ctx, "c16")
     if not ok:
         ctx.violation({"layer": "harness build against /repo", "error": binp},
                       "harness no longer builds against the implementation", no_input=True)
